@@ -4,7 +4,7 @@
    For every abstract statement whose expressions are dominated (C02's condition) reading the printed tokens gives back
    exactly the statement -- unbounded number of items, joins, nesting depth of expressions. *)
 From PV Require Import Base Crit gen.TermsTable Terms Page gen.QueryTable Query Parse lemmas.ParseMono lemmas.ParsePrint.
-From PV Require Import C02Model C02Expected C02Frag lemmas.C02Lemmas lemmas.C02Final gen.C04Table Select.
+From PV Require Import C02Model C02Frag lemmas.C02Lemmas lemmas.C02Final gen.C04Table Select.
 From Coq Require Import Lia Arith.
 Local Open Scope list_scope.
 
